@@ -32,6 +32,26 @@ func (m *MainPackageInfo) ApplyMainEntry(cfg *printer.Config, packageAlias strin
 	position := 0
 	for _, decl := range f.Decls {
 		if node, ok := decl.(*ast.FuncDecl); ok && node.Name.Name == "main" && node.Recv == nil {
+			if fset.Position(node.Body.Lbrace).Line == fset.Position(node.Body.Rbrace).Line {
+				// the body is on one line (`func main() { run() }`): there is no line
+				// after the opening brace to insert at. Break the line after the brace
+				// and start over on the result.
+				src, err := os.ReadFile(m.MainFile)
+				if err != nil {
+					return nil, err
+				}
+				off := fset.Position(node.Body.Lbrace).Offset + 1
+				src = append(src[:off:off], append([]byte("\n"), src[off:]...)...)
+				fset = token.NewFileSet()
+				if f, err = parser.ParseFile(fset, m.MainFile, src, parser.ParseComments); err != nil {
+					return nil, err
+				}
+				for _, d := range f.Decls {
+					if n, ok := d.(*ast.FuncDecl); ok && n.Name.Name == "main" && n.Recv == nil {
+						node = n
+					}
+				}
+			}
 			position = fset.Position(node.Body.Lbrace + 2).Line
 			break
 		}
